@@ -124,3 +124,123 @@ def iterations(loops, env):
             rec(ls[1:], env2)
     rec(list(loops), dict(env))
     return out
+
+
+def ev_x(e, env):
+    """ev() extended with booleans, comparisons, membership, subscripts, list.index, any/all over generators, sets - still only
+    over values placed in env by the rule (small integers / strings / lists). Expressions are looked up in env by their source
+    text first, so a rule can bind `rhs.eval.modes` to a concrete list."""
+    key = ast.unparse(e)
+    if key in env:
+        return env[key]
+    if isinstance(e, ast.Constant):
+        return e.value
+    if isinstance(e, ast.UnaryOp) and isinstance(e.op, ast.Not):
+        return not ev_x(e.operand, env)
+    if isinstance(e, ast.BoolOp):
+        if isinstance(e.op, ast.And):
+            r = True
+            for v in e.values:
+                r = ev_x(v, env)
+                if not r:
+                    return r
+            return r
+        r = False
+        for v in e.values:
+            r = ev_x(v, env)
+            if r:
+                return r
+        return r
+    if isinstance(e, ast.Compare):
+        import operator as op
+        table = {ast.Lt: op.lt, ast.LtE: op.le, ast.Gt: op.gt, ast.GtE: op.ge, ast.Eq: op.eq, ast.NotEq: op.ne,
+                 ast.In: lambda a, b: a in b, ast.NotIn: lambda a, b: a not in b, ast.Is: op.is_, ast.IsNot: op.is_not}
+        left = ev_x(e.left, env)
+        for o, c in zip(e.ops, e.comparators):
+            right = ev_x(c, env)
+            if type(o) not in table:
+                raise Unknown('compare')
+            if not table[type(o)](left, right):
+                return False
+            left = right
+        return True
+    if isinstance(e, ast.IfExp):
+        return ev_x(e.body, env) if ev_x(e.test, env) else ev_x(e.orelse, env)
+    if isinstance(e, ast.Subscript):
+        v = ev_x(e.value, env)
+        if isinstance(e.slice, ast.Slice):
+            lo = ev_x(e.slice.lower, env) if e.slice.lower is not None else None
+            hi = ev_x(e.slice.upper, env) if e.slice.upper is not None else None
+            return v[lo:hi]
+        return v[ev_x(e.slice, env)]
+    if isinstance(e, (ast.GeneratorExp, ast.ListComp, ast.SetComp)):
+        out = []
+
+        def rec(gens, env_):
+            if not gens:
+                out.append(ev_x(e.elt, env_))
+                return
+            g = gens[0]
+            for item in ev_x(g.iter, env_):
+                env2 = dict(env_)
+                bind(g.target, item, env2)
+                if all(ev_x(c, env2) for c in g.ifs):
+                    rec(gens[1:], env2)
+        rec(e.generators, env)
+        return set(out) if isinstance(e, ast.SetComp) else out
+    if isinstance(e, ast.Call):
+        if isinstance(e.func, ast.Attribute) and e.func.attr in ('index', 'isdisjoint', 'issubset', 'intersection', 'count'):
+            recv = ev_x(e.func.value, env)
+            args = [ev_x(a, env) for a in e.args]
+            if e.func.attr == 'index':
+                return list(recv).index(*args)
+            if e.func.attr == 'count':
+                return list(recv).count(*args)
+            return getattr(set(recv), e.func.attr)(*[set(a) for a in args])
+        name = getattr(e.func, 'id', None)
+        if name in ('any', 'all', 'set', 'len', 'max', 'min', 'sorted', 'list', 'tuple', 'bool', 'sum'):
+            args = [ev_x(a, env) for a in e.args]
+            kw = {k.arg: ev_x(k.value, env) for k in e.keywords}
+            return {'any': any, 'all': all, 'set': set, 'len': len, 'max': max, 'min': min, 'sorted': sorted, 'list': list,
+                    'tuple': tuple, 'bool': bool, 'sum': sum}[name](*args, **kw)
+    if isinstance(e, (ast.Name, ast.BinOp, ast.Tuple, ast.List)) or (isinstance(e, ast.UnaryOp)):
+        if isinstance(e, (ast.Tuple, ast.List)):
+            return [ev_x(x, env) for x in e.elts]
+        if isinstance(e, ast.BinOp):
+            a, b = ev_x(e.left, env), ev_x(e.right, env)
+            if isinstance(e.op, ast.Add):
+                return a + b
+            if isinstance(e.op, ast.Sub):
+                return a - b
+            if isinstance(e.op, ast.BitAnd):
+                return set(a) & set(b)
+            if isinstance(e.op, ast.BitOr):
+                return set(a) | set(b)
+        return ev(e, env)
+    raise Unknown(type(e).__name__)
+
+
+def run_tail(stmts, env):
+    """value returned by a straight-line / if-structured statement list under env (assignments to plain names, if, return)"""
+    env = dict(env)
+
+    class Ret(Exception):
+        pass
+
+    def run(body):
+        for s_ in body:
+            if isinstance(s_, ast.Return):
+                raise Ret(ev_x(s_.value, env) if s_.value is not None else None)
+            if isinstance(s_, ast.Assign) and len(s_.targets) == 1 and isinstance(s_.targets[0], ast.Name):
+                env[s_.targets[0].id] = ev_x(s_.value, env)
+            elif isinstance(s_, ast.If):
+                run(s_.body if ev_x(s_.test, env) else s_.orelse)
+            elif isinstance(s_, (ast.Expr, ast.Pass)):
+                continue
+            else:
+                raise Unknown(type(s_).__name__)
+    try:
+        run(stmts)
+    except Ret as r:
+        return r.args[0]
+    return None
